@@ -950,3 +950,60 @@ Print Assumptions C15_handler_order_exec.
    registered in the other order: every guard holds, both runs succeed with 7 peers, the peer lists are not even a
    permutation of each other (set order of families) and are related as the theorem says *)
 Example C15_example_handler_order_exec := execute_for_perm_flat_example.
+
+(* ---- registries joined with include(), match_short_name per registry (Model/MeshNested.v; seeded C15-7) ---- *)
+From Annet Require Import Model.MeshNested Proofs.MeshNestedProofs.
+
+(* inclusion is flattening: for every tree of registries, every matcher `raw` (what a rule's templates say about the two
+   strings they are given), every device and neighbour list, the matched pairs found through the tree are the
+   matched pairs of the flat pre-order rule list, each rule keeping the name normalisation of the registry it was
+   registered in - as a multiset (the code walks neighbours first inside one registry, registries first across them) *)
+Theorem C15_include_is_flattening :
+  forall (raw : nat -> string -> string -> bool) (g : registry) (device : string) (neighbors : list string),
+    Permutation (lookup_nested raw g device neighbors) (lookup_flat raw (flatten g) device neighbors).
+Proof. exact include_is_flattening. Qed.
+Print Assumptions C15_include_is_flattening.
+
+(* ... and as a LIST for one neighbour: the order in which the results of several rules for one device pair are merged
+   is the pre-order of the registries *)
+Theorem C15_include_is_flattening_pair :
+  forall (raw : nat -> string -> string -> bool) (g : registry) (device nb : string),
+    lookup_nested raw g device [nb] = lookup_flat raw (flatten g) device [nb].
+Proof. exact include_is_flattening_single. Qed.
+Print Assumptions C15_include_is_flattening_pair.
+
+(* the flat lookup is Model/Mesh.lookup_direct (the lookup every executor theorem above is about) for the relation
+   "the rule's templates match the two names as the rule's own registry normalises them" - which is the match table
+   the correspondence run hands to the executor model for every generated registry layout *)
+Theorem C15_flat_lookup_is_mesh_lookup :
+  forall (raw matches : nat -> string -> string -> bool) (rs : list (bool * rule)) (device : string) (nbs : list string),
+    (forall br l r, In br rs ->
+       matches (r_id (snd br)) l r = raw (r_id (snd br)) (normalize (fst br) l) (normalize (fst br) r)) ->
+    map (fun m => (r_id (m_rule m), m_direct m, m_left m, m_right m)) (lookup_flat raw rs device nbs) =
+    map (fun m => (r_id (m_rule m), m_direct m, m_left m, m_right m)) (lookup_direct matches (map snd rs) device nbs).
+Proof. exact flat_is_mesh_lookup. Qed.
+Print Assumptions C15_flat_lookup_is_mesh_lookup.
+
+(* name normalisation never reaches the result: whatever the nesting and the flags, every matched pair carries the
+   names the caller passed ((device, neighbour) or (neighbour, device) for a neighbour of the call) - the executor
+   loads the other end by that name and indexes its neighbours with it *)
+Theorem C15_include_keeps_names :
+  forall (raw : nat -> string -> string -> bool) (g : registry) (device : string) (nbs : list string) (m : matched),
+    In m (lookup_nested raw g device nbs) -> original_names device nbs m.
+Proof. exact nested_names. Qed.
+Print Assumptions C15_include_keeps_names.
+
+(* non-vacuity: a short-name registry including a full-name registry and a short-name one; FQDNs with a domain part;
+   the rule of the full-name registry sees the full names, the rule of the short-name one the short names, and both
+   matched pairs carry the FQDNs *)
+Example C15_example_include :
+  let raw := fun (i : nat) (l r : string) =>
+    match i with
+    | 0 => String.eqb l "leaf1.dc1.net" && String.eqb r "spine1.dc1.net"
+    | _ => String.eqb l "leaf1" && String.eqb r "spine1"
+    end in
+  let g := Registry true [] [Registry false [Rule 0 United] []; Registry true [Rule 1 Separate] []] in
+  map (fun m => (r_id (m_rule m), m_direct m, m_left m, m_right m))
+      (lookup_nested raw g "spine1.dc1.net" ["leaf1.dc1.net"; "leaf2.dc1.net"])
+  = [(0, false, "leaf1.dc1.net", "spine1.dc1.net"); (1, false, "leaf1.dc1.net", "spine1.dc1.net")].
+Proof. vm_compute. reflexivity. Qed.
